@@ -326,7 +326,7 @@ func (e *Engine) checkAssert(st *State, name string, c *Term, in ssa.Instruction
 		e.h.inconclusive = append(e.h.inconclusive, "assert "+name+": solver unknown")
 		return
 	}
-	fl := &Failure{kind: "assert", name: name, msg: "assertion " + name + " can fail", pos: e.pos(in)}
+	fl := &Failure{kind: "assert", name: name, msg: "assertion " + name + " can fail", pos: e.pos(in), goal: bad}
 	e.fillStack(st, fl)
 	e.recordViolation(st, fl, model)
 	// the path continues without assuming the failed assertion (later assertions may fail for the same reason)
